@@ -7,6 +7,7 @@ import (
 	"fmt"
 	"os"
 	"path/filepath"
+	"runtime"
 	"sort"
 	"strings"
 	"sync/atomic"
@@ -95,6 +96,9 @@ func noteCase(c *Case) {
 }
 
 const hangSeconds = 60
+
+// memLimit bounds a worker process (16 of them share the machine).
+var memLimit = uint64(envInt("VERIF_MEM_MB", 2048)) << 20
 
 // startWatchdog runs onHang(case) if for hangSeconds of wall-clock time no
 // case starts or finishes, the simulator takes no scheduling decision and no
@@ -249,6 +253,7 @@ type Stats struct {
 	Samples      []json.RawMessage `json:"samples"`
 	WallS        float64           `json:"wall_s"`
 	HashFile     string            `json:"hash_file"`
+	StoppedEarly string            `json:"stopped_early,omitempty"`
 	MinimiseRuns int               `json:"minimise_runs"`
 }
 
@@ -588,6 +593,17 @@ func RunWorker(t *testing.T, propID, tier string, seed uint64, worker, workers, 
 	for u := worker; u < units; u += workers {
 		if budget > 0 && time.Since(start) > budget {
 			break
+		}
+		if st.Units%2000 == 1999 {
+			// Goroutines that the code under test leaves blocked for good (Map's
+			// workers on its never-closed queue) stay with the process: stop
+			// exploring before the machine runs out of memory.
+			var ms runtime.MemStats
+			runtime.ReadMemStats(&ms)
+			if ms.Sys > memLimit {
+				st.StoppedEarly = fmt.Sprintf("memory: %d MiB in use after %d units (limit %d MiB)", ms.Sys>>20, st.Units, memLimit>>20)
+				break
+			}
 		}
 		w.unit = u
 		w.nrep = 0
